@@ -112,8 +112,8 @@ def _is_row_builder(it):
     sig = it["sig"]
     ret = (sig.get("ret") or "").replace(" ", "")
     tys = [_ty(i) for i in sig["inputs"] if not A.is_receiver(i)]
-    if any("JoinMode" in t for t in tys) or "MechTable" in ret or ret in ("", "()", "bool"):
-        return False
+    if any("JoinMode" in t for t in tys) or "MechTable" in ret or ret in ("", "()", "bool", "Value", "Option<Value>") or any(re.match(r"^&?(mut)?u64$", t) for t in tys):
+        return False            # a function that reads ONE cell (it is told the column) is not a row builder
     return any("MechTable" in t for t in tys) and any(t == "usize" for t in tys)
 
 
@@ -255,8 +255,11 @@ class ModeRun:
             it = self.builders[v[1]]
             args = v[2]
             tabs = [args[k] for k in A.param_indices(it, r"\bMechTable\b") if k < len(args)]
-            rows = [args[k] for k in A.param_indices(it, r"^usize$") if k < len(args)]
+            # a row number is a `usize`; "no row" is spelled 0 + flag, or None of an Option<usize>
+            rows = [args[k] for k in A.param_indices(it, r"^(usize|Option<usize>)$") if k < len(args)]
+            rows = [r[2] if r[0] == "opt" and r[1] == ("bool", True) else ("int", 0) if r[0] == "opt" and r[1] == ("bool", False) else r for r in rows]
             flags = [args[k] for k in A.param_indices(it, r"^bool$") if k < len(args)]
+            optional_row = any(re.match(r"^Option<usize>$", _ty(i)) for i in it["sig"]["inputs"] if not A.is_receiver(i))
             lrow = ("elem", I.loops[ll[-1]]["src"], ll[-1]) if ll else None
             if len(tabs) == 2:
                 if tabs == [L, R] and len(rows) == 2 and lrow is not None and rows[0] == lrow:
@@ -265,12 +268,49 @@ class ModeRun:
                         (r[0] == "elem" and r[2] in rl and self.predicate_holds(conds, lrow, r))
                     if matched_row and all(f == ("bool", False) for f in flags) and emp is not True:
                         return "pairs"
-                    if r == ("int", 0) and flags and all(f == ("bool", True) for f in flags) and emp is True and not ml and not rl:
+                    if r == ("int", 0) and (flags or optional_row) and all(f == ("bool", True) for f in flags) and emp is True and not ml and not rl:
                         return "unmatched_lhs"
                 return "odd-merge(%s)%s" % (",".join(A.show(a) for a in (tabs + rows + flags)[2:]), "" if emp is None else ":empty=%s" % emp)
             if len(tabs) == 1 and tabs == [L] and len(rows) == 1 and lrow is not None and rows[0] == lrow and not ml and not rl:
                 return "semi" if emp is False else "anti" if emp is True else "lhs-only-unguarded"
+        if v[0] == "obj" and ll:
+            # a row assembled in place (a row builder inlined): classified by what its cells are read from
+            lrow = ("elem", I.loops[ll[-1]]["src"], ll[-1])
+            d = self.row_desc(v[1])
+            left = {e for e in d if e[0] == "L"}
+            right = {e for e in d if e[0] == "R"}
+            if d and left == {("L", frozenset(["L"]), frozenset([lrow]))} and not {e for e in d if e[0] == "?"}:
+                if not right and not ml and not rl:
+                    return "semi" if emp is False else "anti" if emp is True else "lhs-only-unguarded"
+                if len(right) == 1:
+                    (_, tabs_, rows_), = right
+                    if tabs_ == frozenset(["R"]) and len(rows_) == 1:
+                        r, = rows_
+                        matched_row = (r[0] == "elem" and r[2] in ml) or (r[0] == "elem" and r[2] in rl and self.predicate_holds(conds, lrow, r))
+                        if matched_row and emp is not True:
+                            return "pairs"
+                    if tabs_ == frozenset() and emp is True and not ml and not rl:
+                        return "unmatched_lhs"
+            return "odd-row(%s)%s" % (";".join(sorted("%s<-%s@%s" % (c_, "+".join(sorted(t_)) or "empty", "+".join(sorted(A.show(x) for x in r_))) for c_, t_, r_ in d)), "" if emp is None else ":empty=%s" % emp)
         return "other:" + A.show(v)[:30]
+
+    def row_desc(self, oid):
+        """what a row assembled in place holds: {(side of the column, tables its cell is read from, row numbers used)} - one entry per kind of cell"""
+        I = self.I
+        out = set()
+        rowish = set(self.left_loops) | set(self.right_loops) | {l for l, lp in I.loops.items() if lp["src"][0] == "obj" and lp["src"][1] in self.matchsets}
+        for c in A.contents(I, oid):
+            side = "?"
+            for l in c["loops"]:
+                s_ = I.loops[l]["src"]
+                if s_[0] == "field" and s_[2] == "data" and s_[1] in (L, R):
+                    side = "L" if s_[1] == L else "R"
+            val = A.proj(c["value"], 1)
+            sv = set(A.subvalues(val))
+            tabs = frozenset(n for n, at in (("L", L), ("R", R)) if at in sv)
+            rows = frozenset(x for x in sv if x[0] == "elem" and x[2] in rowish)
+            out.add((side, tabs, rows))
+        return out
 
     def unmarked_guard(self, conds, rlid):
         rrow = ("elem", self.I.loops[rlid]["src"], rlid)
@@ -346,6 +386,32 @@ def _norm_predicate(I, p):
     return None
 
 
+def _paths_to(v, pred):
+    """[(marker value, conditions of the `if` expressions on the way down to it)] for every sub-value satisfying pred"""
+    out = []
+    st = [(v, ())]
+    seen = set()
+    while st:
+        x, conds = st.pop()
+        if not isinstance(x, tuple) or not x:
+            continue
+        if not isinstance(x[0], str):
+            st.extend((y, conds) for y in x if isinstance(y, tuple))
+            continue
+        if (x, conds) in seen:
+            continue
+        seen.add((x, conds))
+        if pred(x):
+            out.append((x, conds))
+        if x[0] == "ite":
+            st.append((x[1], conds))
+            st.append((x[2], conds + ((x[1], True),)))
+            st.append((x[3], conds + ((x[1], False),)))
+        else:
+            st.extend((y, conds) for y in x[1:] if isinstance(y, tuple))
+    return out
+
+
 def _norm_eq(b):
     neg = False
     while b[0] == "not":
@@ -402,7 +468,7 @@ def check_join(items, rep, crate):
     try:
         for mo in MODES:
             runs[mo] = ModeRun(items, routine, mo)
-    except (A.GiveUp, RecursionError) as ex:
+    except (A.GiveUp, RecursionError, IndexError, TypeError, KeyError, ValueError, AttributeError) as ex:
         rep.bad("C18-R2", "anchor:join-routine-not-analysable", "the join routine could not be evaluated symbolically (%s)" % ex, where)
         return got, opt
     em = {mo: r.emissions() for mo, r in runs.items()}
@@ -549,23 +615,27 @@ def check_join(items, rep, crate):
             if side is None:
                 continue
             sides_seen.add(side)
-            calls = [x for x in sv if x[0] == "call" and x[1] in wrappers]
-            if not calls:
+            # the kind is made optional: a call of the wrapper (&ValueKind -> ValueKind) or, when that is written in place, the ValueKind::Option constructor
+            marks = _paths_to(it["value"], lambda x: (x[0] == "call" and x[1] in wrappers) or (x[0] == "ctor" and re.search(r"(^|::)ValueKind::Option$", x[1]) is not None))
+            if not marks:
                 continue
             opt_modes[side].add(mo)
-            # under which condition is the kind made optional: only for the columns that are not shared
-            for c in calls:
-                evs = [e for e in I.events if e["k"] == "call" and e["name"] == c[1] and e["args"] == c[2] and e["loops"] == it["loops"]]
-                common = r.common_objs()
-                for e in evs:
-                    shared_test = False
-                    for cnd, pol in A.flat_conds(e["ctx"]):
-                        if not pol and cnd[0] == "m" and cnd[2] in ("contains", "contains_key") and cnd[1][0] == "obj":
-                            holds = set(A.deep_values(I, cnd[1]))
-                            if not common or any(x[0] == "elem" and x[1][0] == "obj" and x[1][1] in common for x in holds):
-                                shared_test = True
-                    if side == "lhs" and not shared_test:
-                        guard_ok[side] = False
+            # under which condition: only for the columns that are not shared
+            common = r.common_objs()
+
+            def shared_test(conds):
+                for cnd, pol in A.flat_conds(conds):
+                    if not pol and cnd[0] == "m" and cnd[2] in ("contains", "contains_key") and cnd[1][0] == "obj":
+                        holds = set(A.deep_values(I, cnd[1]))
+                        if not common or any(x[0] == "elem" and x[1][0] == "obj" and x[1][1] in common for x in holds):
+                            return True
+                return False
+            for mk_, path_conds in marks:
+                cond_sets = [tuple(it["ctx"]) + tuple(path_conds)]
+                if mk_[0] == "call":
+                    cond_sets += [e["ctx"] for e in I.events if e["k"] == "call" and e["name"] == mk_[1] and e["args"] == mk_[2]]
+                if side == "lhs" and not any(shared_test(cs) for cs in cond_sets):
+                    guard_ok[side] = False
         if sides_seen == {"lhs"}:
             left_only_modes.add(mo)
     want_opt = {"lhs": {"RightOuter", "FullOuter"}, "rhs": {"LeftOuter", "FullOuter"}}
